@@ -26,6 +26,13 @@ Proof.
   rewrite IH. apply perm_swap.
 Qed.
 
+Lemma batch_insert_all_perm : forall bs acc,
+  Permutation (fold_left (fun acc b => batch_insert b acc) bs acc) (bs ++ acc).
+Proof.
+  induction bs as [|b r IH]; intros acc; simpl; [reflexivity|].
+  rewrite IH. rewrite batch_insert_perm. symmetry. apply Permutation_middle.
+Qed.
+
 Lemma pick_perm : forall c k n l p q, pick c k n l = (p, q) -> Permutation (p ++ q) l.
 Proof.
   intros c k n l; revert n; induction l as [|t r IH]; intros n p q H; simpl in H.
@@ -583,6 +590,24 @@ Proof.
   intros. unfold step. simpl. apply (proj1 (end_block_full_ok f pf h now groups ests s)).
 Qed.
 
+(** * Restart from an exported genesis: the same pending records, nothing else touched *)
+Lemma genesis_pool_perm : forall s, Permutation (pool (genesis s)) (pool s).
+Proof. intros s. unfold genesis; simpl. rewrite pool_insert_all_perm. now rewrite app_nil_r. Qed.
+Lemma genesis_batches_perm : forall s, Permutation (batches (genesis s)) (batches s).
+Proof. intros s. unfold genesis; simpl. rewrite batch_insert_all_perm. now rewrite app_nil_r. Qed.
+Lemma genesis_pending_perm : forall s, Permutation (pending (genesis s)) (pending s).
+Proof.
+  intros s. unfold pending. apply Permutation_app; [apply genesis_pool_perm|].
+  apply flat_map_perm. apply genesis_batches_perm.
+Qed.
+Lemma genesis_inv : forall s, Inv s -> Inv (genesis s) /\ table (genesis s) = table s.
+Proof.
+  intros s I. split; [|reflexivity].
+  apply (inv_perm s); try reflexivity; try exact I.
+  - apply genesis_pending_perm.
+  - eapply Permutation_Forall; [symmetry; apply genesis_batches_perm | apply (inv_homog _ I)].
+Qed.
+
 (** * Every operation that does not write the denom table preserves the invariant *)
 Lemma step3_inv : forall s o s' out n,
   is_map o = false -> table_wf (table s) -> Inv s -> step3 s o = (s', out, n) -> Inv s' /\ table s' = table s.
@@ -607,6 +632,7 @@ Proof.
   - cbn [step3] in H. inversion H; subst.
     destruct (end_block_full_ok f pf h now groups ests s) as [E F]. rewrite E.
     apply run_sub_inv; assumption.
+  - cbn [step3] in H. inversion H; subst. now apply genesis_inv.
 Qed.
 
 Lemma step_inv : forall s o, is_map o = false -> table_wf (table s) -> Inv s ->
@@ -758,6 +784,8 @@ Proof.
     apply atomically_cases in E as [[-> E]|[-> ->]]; [|exact HI].
     unfold map_admin_raw in E. destruct (f 0%nat); [discriminate|]. destruct (negb auth); [discriminate|].
     destruct (denom_of (table s) c k); [discriminate|]. inversion E; subst. exact HI.
+  - (* genesis round trip *) left. inversion E; subst.
+    eapply Permutation_in; [apply genesis_pending_perm | exact HI].
 Qed.
 
 Lemma sub_not_full : forall o, sub_op o = true -> is_full o = false.
@@ -1151,6 +1179,7 @@ Proof.
     apply atomically_cases in E as [[-> E]|[-> ->]]; [|simpl; lia].
     unfold map_admin_raw in E. destruct (f 0%nat); [discriminate|]. destruct (negb auth); [discriminate|].
     destruct (denom_of (table s) c k); [discriminate|]. inversion E; subst. simpl. lia.
+  - (* genesis round trip *) inversion E; subst. simpl. lia.
 Qed.
 
 Lemma run_sub_supply : forall tr s d,
@@ -1397,6 +1426,7 @@ Proof.
     apply atomically_cases in E as [[_ E]|[X _]]; [|discriminate].
     unfold map_admin_raw in E. destruct (f 0%nat); [discriminate|]. destruct (negb auth); [discriminate|].
     destruct (denom_of (table s) c k); [discriminate|]. inversion E; subst; simpl; auto.
+  - unfold step in H; simpl in H. inversion H; subst; auto.
 Qed.
 
 (** an accepted transfer stays accepted: ids are never reused *)
@@ -1449,6 +1479,7 @@ Proof.
     apply atomically_cases in E as [[_ E]|[X _]]; [|discriminate].
     unfold map_admin_raw in E. destruct (f 0%nat); [discriminate|]. destruct (negb auth); [discriminate|].
     destruct (denom_of (table s) c k); [discriminate|]. inversion E; subst; simpl; lia.
+  - unfold step in H; simpl in H. inversion H; subst; simpl; lia.
 Qed.
 
 Lemma run_sub_last_tx : forall tr s, Forall (fun o => sub_op o = true) tr -> last_tx s <= last_tx (run s tr).
@@ -1520,3 +1551,34 @@ Lemma code_shape3_proof :
   deferred_commit_reads_named_result =
     ["BuildOutgoingTXBatch"; "CancelOutgoingTXBatch"; "OutgoingTxBatchExecuted"; "UpdateBatchGasEstimate"].
 Proof. reflexivity. Qed.
+
+(** round 4: across an export / wipe / import of the module the pending transfer records are the
+    same (as a multiset: pool and batches are re-inserted under the same keys), and nothing else of
+    the bridge's fund state moves *)
+Theorem genesis_round_trip_proof : forall s,
+  let s' := fst (step s OGenesis) in
+  snd (step s OGenesis) = Ok /\
+  Permutation (pool s') (pool s) /\ Permutation (batches s') (batches s) /\
+  Permutation (pending s') (pending s) /\
+  table s' = table s /\ bal s' = bal s /\ escrow s' = escrow s /\ comm s' = comm s /\ supply s' = supply s /\
+  last_tx s' = last_tx s /\ last_batch s' = last_batch s /\ refunded s' = refunded s /\ burned s' = burned s.
+Proof.
+  intros s. unfold step; simpl. repeat split.
+  - apply genesis_pool_perm.
+  - apply genesis_batches_perm.
+  - apply genesis_pending_perm.
+Qed.
+
+(** round 4: ExportGenesis reads the whole pool, all batches and the denom table (before or after
+    "fix: export the ERC20 -> denom entries of contracts a denom was mapped to before": the
+    denom -> ERC20 index only, or both), skips nothing; the two getters walk the whole key prefix;
+    InitGenesis writes counters, batches, pool and table back.  A per-token / per-index / filtered
+    export is another list and breaks this theorem. *)
+Lemma code_shape4_proof :
+  (genesis_export_reads = ["GetUnbatchedTransactions"; "GetOutgoingTxBatches"; "GetAllERC20ToDenoms"]
+   \/ genesis_export_reads = ["GetUnbatchedTransactions"; "GetOutgoingTxBatches"; "GetAllERC20ToDenoms"; "GetAllERC20ToDenomsByContract"])
+  /\ genesis_export_skips_entries = false
+  /\ pool_read_is_whole_prefix = true /\ batches_read_is_whole_prefix = true
+  /\ order_InitGenesis = ["setID"; "setID"; "initBridgeDataFromGenesis"; "addUnbatchedTX"; "setDenomToERC20"]
+  /\ order_initBridgeDataFromGenesis = ["StoreBatch"].
+Proof. split; [first [left; reflexivity | right; reflexivity] | repeat split; reflexivity]. Qed.
